@@ -645,7 +645,8 @@ func (f *Frame) havocClosureArgs(bi *BInfo, argVals []ssa.Value) {
 		f.inlineCall(sub, cl.fn, cl, cargs, cvals)
 		var changed []string
 		all := sub.out.epoch != before.epoch
-		for name, es := range g.arrReg {
+		for _, name := range g.sortedArrNames() {
+			es := g.arrReg[name]
 			if g.arr(sub.out, name, es) != g.arr(before, name, es) {
 				changed = append(changed, name)
 			}
